@@ -628,8 +628,13 @@ def step_eval(prog, f, body, rd, wr, window):
                 ev(a)
                 return ev(b)
             x, y = ev(a), ev(b)
-            return {'+': x + y, '-': x - y, '*': x * y, '&': x & y, '|': x | y, '^': x ^ y, '<<': x << y, '>>': x >> y,
-                    '==': int(x == y), '!=': int(x != y), '<': int(x < y), '>': int(x > y), '<=': int(x <= y), '>=': int(x >= y)}[op]
+            if op in ('<<', '>>') and not (0 <= y < 64):
+                raise _Stop('shift by %s' % y)
+            import operator as _op
+            fn = {'+': _op.add, '-': _op.sub, '*': _op.mul, '&': _op.and_, '|': _op.or_, '^': _op.xor, '<<': _op.lshift, '>>': _op.rshift,
+                  '==': lambda p_, q_: int(p_ == q_), '!=': lambda p_, q_: int(p_ != q_), '<': lambda p_, q_: int(p_ < q_),
+                  '>': lambda p_, q_: int(p_ > q_), '<=': lambda p_, q_: int(p_ <= q_), '>=': lambda p_, q_: int(p_ >= q_)}[op]
+            return fn(x, y)
         if k == 'CompoundAssignOperator':
             a, b = children(s)
             nm = (strip(a).get('referencedDecl') or {}).get('name')
